@@ -1,7 +1,6 @@
 package sim
 
 import (
-	"runtime"
 	"context"
 	"crypto/sha256"
 	"encoding/binary"
@@ -9,6 +8,7 @@ import (
 	"fmt"
 	"os"
 	"path/filepath"
+	"runtime"
 	"time"
 
 	"cosmossdk.io/log"
